@@ -49,6 +49,14 @@ def main(argv):
         try:
             r = sh('git -C %s apply %s' % (wt, os.path.join(d, 'patch.diff')))
             if r.returncode:
+                # written against an earlier HEAD (a later repair touched neighbouring
+                # lines): retry with less context, then with fuzz
+                r = sh('git -C %s apply -C1 %s' % (wt, os.path.join(d, 'patch.diff')))
+            if r.returncode:
+                sh('git -C %s checkout -- .' % wt)
+                r = sh('cd %s && patch -p1 -F3 -s --no-backup-if-mismatch < %s'
+                       % (wt, os.path.join(d, 'patch.diff')))
+            if r.returncode:
                 rows.append((name, meta['property'], '-', 'PATCH DOES NOT APPLY', r.stderr.strip()[:80]))
                 continue
             for chk in meta.get('checks') or [meta['property']]:
